@@ -38,6 +38,9 @@ def cases(tier, rng):
         nfff = int(rng.integers(3, 7)) if scheme in ("FFNS", "FFN0") else int(rng.integers(3, 6))
         th = dict(PTO=0, FNS=scheme, NfFF=nfff, **cards.rand_ew(rng))
         th["CKM"] = cards.rand_ckm(rng) if rng.random() < 0.8 else cards.CKM_PDG
+        if i % 5 == 2:  # the card may also carry the moduli as a list (flat or 3x3), not only as the usual string
+            v = [float(t) for t in th["CKM"].split(" ")]
+            th["CKM"] = v if i % 10 == 2 else [v[0:3], v[3:6], v[6:9]]
         # masses: random but ordered; Q2 kept >= 4 ulp-safe away from thresholds by construction (factor 1.07)
         mc = float(rng.uniform(1.1, 1.9)); mb = float(rng.uniform(3.5, 5.5)); mt = float(rng.uniform(100.0, 200.0))
         th.update(mc=mc, mb=mb, mt=mt)
